@@ -6,6 +6,8 @@ import (
 	"fmt"
 	"math/rand"
 	"os"
+	"path/filepath"
+	"regexp"
 	"runtime"
 	"strconv"
 	"strings"
@@ -59,6 +61,8 @@ func cat(parts ...[]string) []string {
 func (queueSlice) Corpus() [][]string {
 	hdr := []string{"init mode=trad n=1"}
 	return [][]string{
+		// the code's own threshold: producer alone runs until it is throttled
+		cat([]string{"init mode=trad n=code"}, rep("P", 24), rep("C", 3), rep("P", 8)),
 		// F12, lost wake-up: the producer sits between Unlock and the select of
 		// waitUntilSizeIsBelow(1) with two queued segments, one pull completes, then the
 		// producer enters the select: with the upstream code it waits on the channel created by
@@ -97,8 +101,13 @@ func (queueSlice) Gen(r *rand.Rand, i int, tier string) ([]string, []string) {
 	case 2:
 		n = 3
 	}
-	tags = append(tags, "mode="+mode, "n="+strconv.Itoa(n))
-	ops := []string{fmt.Sprintf("init mode=%s n=%d", mode, n)}
+	ns := strconv.Itoa(n)
+	if r.Intn(2) == 0 {
+		// the constant the code under test really uses (1 upstream); prefix lengths below assume 1
+		n, ns = 1, "code"
+	}
+	tags = append(tags, "mode="+mode, "n="+ns)
+	ops := []string{fmt.Sprintf("init mode=%s n=%s", mode, ns)}
 	maxLen := 20 + r.Intn(70)
 	if tier == "thorough" && r.Intn(8) == 0 {
 		maxLen = 150 + r.Intn(250)
@@ -220,6 +229,7 @@ type qRunner struct {
 	q      *gohlslib.VerifSegmentQueue
 	mode   string
 	n      int
+	nCode  bool // n is the constant runTraditional really passes (read from the source under test)
 	P, C   *qThread
 	killed atomic.Bool
 
@@ -401,6 +411,28 @@ func (r *qRunner) consumer(t *qThread) {
 }
 
 var debugQueue = os.Getenv("VERIF_QUEUE_DEBUG") != ""
+
+var codeThresholdRe = regexp.MustCompile(`\.waitUntilSizeIsBelow\(ctx, (\d+)\)`)
+
+// codeThreshold reads the literal runTraditional passes to waitUntilSizeIsBelow from the
+// source tree the harness was built against (the loop of runTraditional itself needs a
+// server; the harness mirrors it and takes only this constant from the source).
+func codeThreshold() (int, bool) {
+	repo := os.Getenv("VERIF_REPO")
+	if repo == "" {
+		repo = "/repo"
+	}
+	b, err := os.ReadFile(filepath.Join(repo, "client_stream_downloader.go"))
+	if err != nil {
+		return 0, false
+	}
+	ms := codeThresholdRe.FindAllSubmatch(b, -1)
+	if len(ms) != 1 {
+		return 0, false
+	}
+	v, err := strconv.Atoi(string(ms[0][1]))
+	return v, err == nil
+}
 
 type qEvent int
 
@@ -620,6 +652,10 @@ func (r *qRunner) oracle(length, nils int, held bool) {
 		if length > r.n+2 {
 			r.fail("C20 look-ahead: queue length %d, bound %d", length, r.n+2)
 		}
+		// with the threshold the code really uses, the property text gives the absolute number
+		if r.nCode && length-nils > 2 {
+			r.fail("C20 look-ahead: %d downloaded segments waiting with the real threshold (%d); the property allows two", length-nils, r.n)
+		}
 	}
 	if r.cancelled || held {
 		return
@@ -661,6 +697,14 @@ func (r *qRunner) Step(line string) []string {
 				}
 				r.mode = kv[1]
 			case "n":
+				if kv[1] == "code" {
+					v, ok := codeThreshold()
+					if !ok {
+						return []string{"bad-op: cannot read the waitUntilSizeIsBelow constant of runTraditional"}
+					}
+					r.n, r.nCode = v, true
+					continue
+				}
 				v, err := strconv.Atoi(kv[1])
 				if err != nil || v < 0 || v > 1000 {
 					return []string{"bad-op"}
@@ -669,6 +713,9 @@ func (r *qRunner) Step(line string) []string {
 			default:
 				return []string{"bad-op"}
 			}
+		}
+		if r.nCode {
+			return []string{fmt.Sprintf("init mode=%s n=%d code", r.mode, r.n)}
 		}
 		return []string{fmt.Sprintf("init mode=%s n=%d", r.mode, r.n)}
 	}
